@@ -43,7 +43,9 @@ CLAIMS = {
             "by growth.", DB_NOTE + "Not claimed: id lookup across Store-level histories.", "DESIGN.md 8.3 C04"),
     "C05": ("Index keys: byte-lexicographic order == newest first with id tie-break for ci/ac/akc keys, (author,kind) prefix separation; scan bounds of "
             "all six *_iter functions for an arbitrary since/until window; the scraping gate of find_events on an empty store with arbitrary "
-            "since/until/limit/clock/allowances never panics and refuses exactly when the allowances do not cover the filter.", DB_NOTE +
+            "since/until/limit/clock/allowances never panics and refuses exactly when the allowances do not cover the filter; the author+kind, "
+            "author and tag plans of find_events on an empty store with arbitrary window/limit and no scraping allowance are never refused, "
+            "never panic and return the empty answer.", DB_NOTE +
             "Not claimed: query plans over non-empty stores, limit selection, redaction (find_events dereferences stored events: DESIGN.md 8.2).",
             "DESIGN.md 8.3 C05"),
     "C06": ("Filter::event_matches equals a reference NIP-01 predicate on byte images with arbitrary contents: 0..2 ids/authors/kinds in six count "
@@ -61,6 +63,8 @@ CLAIMS = {
             "(values differing only by trailing NUL bytes collide).", DB_NOTE + "Not decided: Store-level replacement histories (thorough "
             "harnesses exist and hit their caps: they dereference stored events, DESIGN.md 8.2).", "DESIGN.md 8.3 C09, 8.5"),
     "C11": ("Lmdb level: the recorded deletion time of an address after two markings with arbitrary 64-bit times in either order is the maximum. "
+            "Store level: an event whose id carries a deletion marker is refused as deleted by a complete store_event (arbitrary time and author "
+            "byte), and the marker stays. "
             "Store level: with an address deletion at T on record, a complete store_event of an event at that address with an arbitrary "
             "created_at is refused as deleted iff created_at <= T and stored otherwise, and the recorded time is unchanged.", DB_NOTE +
             "Not claimed: rebuild/reopen continuations; removal of covered events that are already stored (dereferences stored events).",
